@@ -10,7 +10,7 @@ open ASV ASV.Packing.Spec
 local macro "fin" : tactic =>
   `(tactic| (simp [Area.fromFeature, Area.offset, drawRange, Feat.start, Feat.end, Feat.coreStart,
       Feat.coreEnd, Loc.start, Loc.end, Drawn.shown, expectedShown, foldS, foldE, Loc.mem, Loc.parts,
-      Part.mem, minList, maxList] <;> (try intros) <;> omega))
+      Part.mem, minList, maxList, ringOffset, Loc.len, Part.len] <;> (try intros) <;> omega))
 
 theorem areasOf_good_R1 {c : Ctx} {f : Feat} (hf : featOK c f = true) (h gid : Int)
     (R p : Part) (hr : c.region = .simple R) (hp : f.loc = .simple p) (hR1 : 0 ≤ R.lo) (hR3 : R.hi ≤ c.L)
@@ -34,32 +34,10 @@ theorem areasOf_good_R1 {c : Ctx} {f : Feat} (hf : featOK c f = true) (h gid : I
       · try simp only at hp' hq
         cases hp'
         subst hq
-        apply good_single
-        · simp [Area.fromFeature, drawRange, Feat.start, Feat.end, Feat.coreStart, Feat.coreEnd, Loc.start, Loc.end]
-          omega
-        · simp [Area.fromFeature]
-        · simp [Area.fromFeature, Feat.start, Feat.end]; omega
-        · simp [Area.fromFeature, Feat.start, Feat.end, Loc.mem, Loc.parts, Part.mem, foldS]
-          intro x hx1 hx2
-          omega
-        · simp [Area.fromFeature]
-        · simp [Area.fromFeature, Drawn.shown, expectedShown, foldS, foldE, Feat.start, Feat.end, Feat.coreStart, Feat.coreEnd]
-          omega
+        apply good_single <;> fin
       · simp at hp'
       · simp at hp'
-    all_goals
-      apply good_single
-      · simp [Area.fromFeature, drawRange, Feat.start, Feat.end, Loc.start, Loc.end]
-        omega
-      · simp [Area.fromFeature]
-      · simp [Area.fromFeature, Feat.start, Feat.end]; omega
-      · simp [Area.fromFeature, Feat.start, Feat.end, Loc.mem, Loc.parts, Part.mem, foldS]
-        intro x hx1 hx2
-        omega
-      · simp [Area.fromFeature]
-      · simp [Area.fromFeature, Drawn.shown, expectedShown, foldS, foldE, Feat.start, Feat.end]
-        omega
-
+    all_goals apply good_single <;> fin
 
 /-- whole-record circular region, origin-spanning feature: two halves -/
 theorem areasOf_good_R2 {c : Ctx} {f : Feat} (hf : featOK c f = true) (h gid : Int)
